@@ -189,7 +189,9 @@ def _shp_check(c, it, ds, conv, conv_name, target_args, kw):
     c.check('one pass over the polygon array', len(loops) == 1)
     if len(loops) != 1:
         raise PathEnd()
-    _, seq, k, sub = loops[0]
+    _, seq, k, sub, learnt = loops[0]
+    for z in learnt:
+        c.assume(z)             # what the executor learnt about the arbitrary iteration k (kept with its record, not with the path)
     src = seq._rows() if hasattr(seq, '_rows') else seq
     c.check('the pass visits every slot of the polygon array once, in order', s_eq(src.length, polys.shape[0]))
     i, slot = src.at(k)
